@@ -412,13 +412,38 @@ def obs_of(exp: Dict[str, Any], events: List[Dict[str, Any]]) -> List[List[Any]]
     return out
 
 
-def tables_canon(results: Optional[List[Any]]) -> Any:
+def overlap_on_shared_fw(exp: Dict[str, Any], events: List[Dict[str, Any]]) -> bool:
+    """True when two steps on the same compute framework were open at the same time (input class of the known THREADING
+    lost-update finding: concurrently running steps that were handed the same compute-framework object)."""
+    steps = exp["steps"]
+    open_: Set[int] = set()
+    for k, i in obs_of(exp, events):
+        if k == "b":
+            fw = steps[i].get("fw") or steps[i].get("to") or steps[i].get("left")
+            for j in open_:
+                if (steps[j].get("fw") or steps[j].get("to") or steps[j].get("left")) == fw:
+                    return True
+            open_.add(i)
+        else:
+            open_.discard(i)
+    return False
+
+
+def tables_canon(results: Optional[List[Any]], sort_rows: bool = False) -> Any:
+    """Canonical form of a list of result tables: a sorted list of tables, each a sorted list of (column, values).
+    With sort_rows the rows of each table are sorted too (join results have no defined row order)."""
     if results is None:
         return None
     out = []
     for r in results:
         cols = F.to_columns(r)
-        out.append(sorted((c, v) for c, v in cols.items()))
+        names = sorted(cols)
+        if sort_rows and names:
+            n = len(cols[names[0]])
+            rows = sorted([[cols[c][i] for c in names] for i in range(n)], key=lambda x: json.dumps(x, default=str))
+            out.append([[c, [row[j] for row in rows]] for j, c in enumerate(names)])
+        else:
+            out.append([[c, cols[c]] for c in names])
     return sorted(out, key=lambda x: json.dumps(x, default=str))
 
 
